@@ -64,7 +64,7 @@ def run_cases(ctx: Ctx, res: Result, cases, kind='RUN', want=('stack', 'cache', 
             outs.append(vmrun.run_impl(cfg, cache, script))
             if outs[-1].startswith('ABORT'):
                 aborts[0] += 1
-                if aborts[0] >= 25:      # runaway implementation: enough evidence, stop burning the budget
+                if aborts[0] >= (25 if vmrun.RUNAWAYS[0] < vmrun.RUNAWAY_LIMIT else 8):      # runaway implementation: enough evidence, stop burning the budget
                     ctx.stopped_early = True
                     break
     aborts = [0]
